@@ -2,7 +2,7 @@
 """Regenerates /verif/MANIFEST.json (kept in one place so that it stays consistent)."""
 import json, os
 V = os.path.dirname(os.path.dirname(os.path.abspath(__file__)))
-hooks = ["a3da739", "851a7e6", "5d948ff", "577277c", "3d14048", "62eb807", "4368ae8", "ed2eb1c", "28dddd9", "2a22471", "b6551bd"]
+hooks = ["a3da739", "851a7e6", "5d948ff", "577277c", "3d14048", "62eb807", "4368ae8", "ed2eb1c", "28dddd9", "2a22471", "b6551bd", "1e1af55"]
 
 def chk(pid, text, note, tech, eng="dsim", level="exploration"):
     return {
@@ -82,7 +82,7 @@ m = {
  "checks": checks,
  "not_applicable": na,
  "notes": ("See DESIGN.md. Exit 2 = harness error (build failure, nondeterministic replay). All hook commits only add lines "
-           "under #[cfg(deadpool_verif)], except ed2eb1c, 28dddd9, 2a22471 and b6551bd, which split the imports of Mutex, Semaphore, Instant (pools), Arc (deadpool-sync) and Mutex, RwLock (deadpool-postgres statement cache) off their use lists "
+           "under #[cfg(deadpool_verif)], except ed2eb1c, 28dddd9, 2a22471, b6551bd and 1e1af55, which split the imports of Mutex, Semaphore, Instant, AtomicUsize, AtomicIsize (pools), Arc (deadpool-sync) and Mutex, RwLock (deadpool-postgres statement cache) off their use lists "
            "and make them cfg-selected (shim types under the guard, the same std/tokio types without it) - hence add_only=false. "
            "Known findings: /verif/known_findings.json (all entries fixed by 'fix:' commits in /repo)."),
 }
